@@ -21,7 +21,7 @@ for pid in sorted(props):
         "engine": "kani-cbmc",
         "level_claimed": {"category": "model_checking", "text": "Bounded model checking of the real code: " + spec["claim"] + " Bounds: " + spec.get("bounds", "") + ". Outside the claim: " + spec.get("outside", ""), "design_ref": "DESIGN.md section 6, %s" % pid},
         "level_note": LEVEL_NOTE,
-        "technique": TECH + ("; MIR->SMT-LIB2 queries (z3 + cvc5) for the integer kernels" if pid in getattr(plan, "SMT", {}) else ""),
+        "technique": TECH + ("; second engine: symbolic execution of the nightly MIR of data/src/data/number.rs into SMT (z3 + cvc5, bit-vectors and IEEE floats, full width) per kernel and operand-kind arm, translator validated against the real build on every run, models replayed natively" if pid in getattr(plan, "SMT", {}) else ""),
     })
 m = {
     "version": 1,
@@ -35,6 +35,7 @@ m = {
     },
     "engines": [
         {"name": "kani-cbmc", "path": "/verif/harness", "serves_properties": sorted(props), "kind_free_text": "bounded symbolic execution of the compiled Rust code (Kani 0.68 -> CBMC 6.11, CaDiCaL); harness bodies generic over a Nondet source so that every counterexample is replayed natively (dev + release) by harness/src/bin/replay.rs"},
+        {"name": "mir-smt", "path": "/verif/smt", "serves_properties": sorted(getattr(plan, "SMT", {})), "kind_free_text": "symbolic interpreter for rustc's MIR dump of the data crate (regenerated from /repo at every run) -> z3 (python API) and cvc5 (SMT-LIB2 text); number kernels of SimpleNumber per operand-kind arm; trusted base = the core-function models listed in the evidence (smt_trusted_base)"},
         {"name": "template-generator", "path": "/verif/gen", "serves_properties": ["C01", "C05", "C06", "C10", "C17", "C18", "C20"], "kind_free_text": "native, concrete run of the real lex + parse on the template corpus; emits the parse-node arrays the program-level harnesses start from (regenerated at every check)"},
     ],
     "checks": checks,
